@@ -371,3 +371,10 @@ pub fn mac_from_str_stub(s: &str) -> Result<MacAddr, pnet::util::ParseMacAddrErr
         hx(b[15]) * 16 + hx(b[16]),
     ))
 }
+
+/// Clock contract: an arbitrary instant between the Unix epoch and the year 2500.
+pub fn system_time_now_stub() -> std::time::SystemTime {
+    let s: u64 = kani::any();
+    kani::assume(s < 16_725_225_600);
+    std::time::SystemTime::UNIX_EPOCH + std::time::Duration::from_secs(s)
+}
